@@ -254,7 +254,14 @@ int main(int argc, char** argv)
         // layout constants of this build, and the guard bytes as the detector writes them (observed on one real block)
         MemoryLeakFailure* rf0 = new RecFailure;
         MemoryLeakDetector* d0 = new MemoryLeakDetector(rf0);
-        TestMemoryAllocator plainMalloc("probe", "malloc", "free");
+        // (a static buffer as the underlying block: reading the bytes after the user bytes is then safe whatever the code requested)
+        class ProbeAllocator : public TestMemoryAllocator {
+        public:
+            ProbeAllocator() : TestMemoryAllocator("probe", "malloc", "free") {}
+            char* alloc_memory(size_t size, const char* file, size_t) CPPUTEST_OVERRIDE {
+                static char buf[2][1024]; static int k = 0; (void) size; (void) file; return buf[k++ % 2] + 64; }
+            void free_memory(char*, size_t, const char*, size_t) CPPUTEST_OVERRIDE {}
+        } plainMalloc;
         char* p = d0->allocMemory(&plainMalloc, 5, "f", 1, true);
         printf("{\"guard\":%lu,\"align\":%lu,\"node\":%lu,\"gb\":[", (unsigned long) G, (unsigned long) sizeof(void*), (unsigned long) sizeof(MemoryLeakDetectorNode));
         for (size_t i = 0; i < G; i++) printf("%s%u", i ? "," : "", (unsigned) (unsigned char) p[5 + i]);
